@@ -29,6 +29,7 @@ type secStat struct {
 	Nontrivial vk.Counter // of those, non-trivial by the section's rule
 	Evals      vk.Counter // oracle evaluations
 	Calls      vk.Counter // calls into the packages under test
+	seen       vk.Counter
 }
 
 type chk struct {
@@ -47,19 +48,22 @@ func newChk(r *vk.Run) *chk {
 	return &chk{r: r, fails: map[string][]failure{}, nfail: map[string]int{}, stats: map[string]*secStat{}, notes: map[string]int64{}, nseen: map[string]int{}}
 }
 
+// sec: the statistics of a section. All sections are created before the
+// parallel phase, so the common path reads the map without locking.
 func (c *chk) sec(name string) *secStat {
-	c.mu.Lock()
-	defer c.mu.Unlock()
-	s := c.stats[name]
-	if s == nil {
-		s = &secStat{}
-		c.stats[name] = s
+	if s := c.stats[name]; s != nil {
+		return s
 	}
-	return s
+	panic("unknown section " + name)
 }
 
 // seen records the first inputs of every section as samples for the evidence.
 func (c *chk) seen(section, input string) {
+	st := c.sec(section)
+	if st.seen.Get() >= 2 {
+		return
+	}
+	st.seen.Inc()
 	c.mu.Lock()
 	if c.nseen[section] < 2 {
 		c.nseen[section]++
@@ -170,6 +174,9 @@ func register(s *section) { sections = append(sections, s) }
 func TestCheck(t *testing.T) {
 	r := vk.Start("C18", "model_checking", 70*time.Second, 8*time.Minute)
 	c := newChk(r)
+	for _, s := range sections {
+		c.stats[s.name] = &secStat{}
+	}
 	if r.Replay != "" {
 		c.replay = true
 		var rec replayRec
